@@ -56,6 +56,7 @@ fn main() {
                 if let Some(body) = arg_val(&args, "--replay-case") {
                     match suite_engine::dec_case(&body) { Some(c) => suite_engine::emit(&mut out, &cfg, &c), None => { eprintln!("cannot decode case"); std::process::exit(2); } }
                 }
+                else if has(&args, "--exhaustive") { suite_engine::run_exhaustive(&mut out, &cfg, shard, nshards); }
                 else { suite_engine::run_random(&mut out, &cfg, &w, seed, n); }
             },
             _ => { eprintln!("unknown suite {}", suite); std::process::exit(2); },
